@@ -470,7 +470,7 @@ fn corrupt_compressed(c: &mut Ctx, z: &Envelope) {
 /// C14 - equivalence and identity
 pub fn c14(c: &mut Ctx, b: &Budget) {
     let cfg = GenCfg::default();
-    for _ in 0..b.scenarios {
+    for sc in 0..b.scenarios {
         c.begin("relations");
         let e = gen_env(c, &cfg, 3);
         let orig = match c.env(&e) { Some(x) => x, None => { c.end(); continue; } };
@@ -492,6 +492,25 @@ pub fn c14(c: &mut Ctx, b: &Budget) {
         if let Some((pos, _)) = gen_position(c, &e) {
             for act in ["elide".to_string(), "compress".to_string(), format!("encrypt:{}", KEY1)] { let v = c.assign(&format!("elide_set {} rem {} {}", e, act, pos)); if c.is_ok(&v) { pool.push(v); } }
             c.count("pool:three-actions-one-position");
+        }
+        if sc % 3 == 0 {
+            // one value at several positions (subject, two objects), each occurrence in its own form: such envelopes are only
+            // reachable by assembling from obscured parts or decoding, never by a digest-targeted elision (which hits every occurrence)
+            let x = gen_env(c, &cfg, 1); let p1 = gen_leaf(c, &cfg); let p2 = gen_leaf(c, &cfg);
+            let mut form = |c: &mut Ctx| -> String {
+                match c.rng.below(4) {
+                    0 => x.clone(),
+                    1 => c.assign(&format!("elide {}", x)),
+                    2 => { let z = c.assign(&format!("compress {}", x)); if c.is_ok(&z) { z } else { x.clone() } }
+                    _ => { let n = hex::encode(c.rng.bytes(12)); let z = c.assign(&format!("encrypt_subject {} {} {}", x, KEY1, n)); if c.is_ok(&z) && c.env(&z).map(|e| !e.is_node()).unwrap_or(false) { z } else { x.clone() } }
+                }
+            };
+            for _ in 0..c.rng.range(3, 5) {
+                let (fs, f1, f2) = (form(c), form(c), form(c));
+                let a1 = c.assign(&format!("assertion {} {}", p1, f1)); let a2 = c.assign(&format!("assertion {} {}", p2, f2));
+                let n1 = c.assign(&format!("add {} {}", fs, a1)); let n2 = c.assign(&format!("add {} {}", n1, a2));
+                if c.is_ok(&n2) { pool.push(n2); c.count("pool:repeated-value-mixed-forms"); }
+            }
         }
         for x in &pool { c.obs(&format!("sdigest {}", x)); }
         let envs: Vec<Envelope> = pool.iter().map(|r| c.env(r).unwrap()).collect();
